@@ -20,7 +20,9 @@ namespace etl {
 template <typename T>
 struct is_scalar;
 
-#if __has_builtin(__is_scalar)
+// libstdc++ declares a class template named __is_scalar (bits/cpp_type_traits.h); once Clang has
+// seen it, __is_scalar is an ordinary identifier for the rest of the translation unit.
+#if __has_builtin(__is_scalar) and not defined(__GLIBCXX__)
 
 template <typename T>
 struct is_scalar : bool_constant<__is_scalar(T)> { };
